@@ -390,6 +390,8 @@ def cover_history(ctx, h, r):
     for c, rec in zip(seq, r['history'].get('calls', [])):
         ctx.cover('call_%s_%s%s' % (rec['kind'], rec['out'][0], ('_stage%d' % rec['stage']) if rec['stage'] else ''))
         ctx.cover('via_' + c['via'])
+        if c['via'] != 'default' and '@global' in h['dicts'][h['objs'][c['d']] if c['via'] == 'obj' else c['d']]:
+            ctx.cover('call_with_global_config')
         if c['via'] != 'default':
             di = h['objs'][c['d']] if c['via'] == 'obj' else c['d']
             spec = h['dicts'][di]
